@@ -4,7 +4,7 @@
    gp t c i p = the correction of product p for input i that data channel c receives at dump t
    (through p's channel map);  factor = what calc_correction_per_corrprod computes for one corrprod. *)
 From Coq Require Import ZArith QArith Qabs Qcanon List Bool String Permutation.
-From KV Require Import Base.Sx Gen.Generated Model.Applycal Proofs.ApplycalP Model.ApplycalSol Proofs.ApplycalSolP Proofs.ApplycalElemP.
+From KV Require Import Base.Sx Gen.Generated Model.Applycal Proofs.ApplycalP Model.ApplycalSol Proofs.ApplycalSolP Proofs.ApplycalElemP Proofs.ApplycalHoldP.
 Import ListNotations.
 
 (* The flag raised by apply_flags_correction (constant name regenerated from applycal.py, value from flags.py). *)
@@ -322,3 +322,17 @@ Theorem C13_invalid_stage_sticks : forall fl f1 f2, f1 = CNaN ->
   Z.testbit (apply_flags (apply_flags fl f1) f2) 7 = true.
 Proof. exact invalid_stage_sticks. Qed.
 Print Assumptions C13_invalid_stage_sticks.
+
+(* ================================================================== hold-type products and the loaded dumps
+   K and B corrections are CategoricalData over the events the data set sees (Applycal.seen): dump t gets the
+   solution in force (ApplycalSol.in_force: the last one at or before t, the first one before that).  For a data
+   set holding dumps [a, b) of a stream with T dumps the solution in force at its dump t is the one in force at dump
+   a + t of the fully opened data set - for events in time order, provided it sees a solution at all (some solution
+   before dump b; otherwise katdal has no sensor value and raises).  Discharges the time axis of the guard of
+   C13_subset_loaded_partial for K / B; gain types do not have it (C13_subset_loaded_refuted). *)
+Theorem C13_hold_independent_of_loaded_dumps : forall (A : Type) (a b T t : Z),
+  (0 <= a)%Z -> (0 <= t)%Z -> (a + t < b)%Z -> (b <= T)%Z ->
+  forall (evs : list (Z * A)) lo, nondecr lo evs -> (exists x, In x evs /\ (fst x < b)%Z) ->
+  in_force (seen a b evs) t = in_force (seen 0 T evs) (a + t)%Z.
+Proof. exact @hold_independent_of_loaded_dumps. Qed.
+Print Assumptions C13_hold_independent_of_loaded_dumps.
